@@ -578,6 +578,56 @@ func fe1Stream(set string) func() {
 	}
 }
 
+// fe1StreamCrowd: as fe1Stream, with three more connections holding the same filter pair live on the
+// channel. The hub prepares one encoding per (protocol, filtered, ...) class of subscribers and shares
+// it; the recovering connection is the one whose client id sorts last, so that it is served from what
+// was prepared for the others (the hub walks subscribers in id order in the verification build).
+func fe1StreamCrowd(set string) func() {
+	combos := fe1Combos(set)
+	return func() {
+		c := combos[vsched.ChooseFree(len(combos))]
+		vsched.Quiet(true)
+		w := fsNewWorld()
+		w.tags = []string{"a", c.tag}
+		w.desc = fmt.Sprintf("pos(crowd) server=%s client=%s tag=%s", c.sf, c.cf, c.tag)
+		res, err := w.n.Publish("pos", []byte(`{"i":1}`), WithTags(fpTagMap("a")), WithHistory(16, time.Minute))
+		if err != nil {
+			panic(err)
+		}
+		var conns []*fsConn
+		for i := 0; i < 4; i++ {
+			conns = append(conns, w.newConn(c.sf, c.cf, fmt.Sprintf("crowd-%d", i)))
+		}
+		sort.Slice(conns, func(i, j int) bool { return conns[i].cl.c.ID() < conns[j].cl.c.ID() })
+		late := conns[3]
+		late.what = "recover-vs-publish(last-id)"
+		for _, cn := range conns[:3] {
+			w.subscribe(cn, "pos", &protocol.SubscribeRequest{})
+		}
+		vsched.WaitIdle()
+		vsched.Quiet(false)
+		var wg sync.WaitGroup
+		wg.Add(2)
+		go func() {
+			defer wg.Done()
+			w.subscribe(late, "pos", &protocol.SubscribeRequest{Recover: true, Offset: 0, Epoch: res.Epoch})
+		}()
+		go func() {
+			defer wg.Done()
+			_, _ = w.n.Publish("pos", []byte(`{"i":2}`), WithTags(fpTagMap(c.tag)), WithHistory(16, time.Minute))
+		}()
+		wg.Wait()
+		vsched.WaitIdle()
+		vsched.Quiet(true)
+		st := fpStats{}
+		for _, cn := range conns {
+			w.check(cn, st)
+		}
+		vsched.Logf("%s", w.desc)
+		st.log("e1")
+	}
+}
+
 // ---- filterrefresh --------------------------------------------------------------------------------
 
 func frBody() func() {
@@ -758,7 +808,7 @@ func init() {
 	})
 	vsched.Register(&vsched.Harness{
 		Name: "filtere1", Props: []string{"C16"}, Kind: "sched",
-		Doc: "E1: the buffered part of the transitions. (server, client) in {none, a}^2 x tag in {a, b, none} (ChooseFree), then two threads: a fresh map subscribe (state->live in one request) on a recoverable map channel (variant map-state-live), on a streamless one (variant streamless), or a stream subscribe recovering from offset 0 (variant stream-recover), " +
+		Doc: "E1: the buffered part of the transitions. (server, client) in {none, a}^2 x tag in {a, b, none} (ChooseFree), then two threads: a fresh map subscribe (state->live in one request) on a recoverable map channel (variant map-state-live), on a streamless one (variant streamless), or a stream subscribe recovering from offset 0 (variant stream-recover; stream-crowd: three more live subscribers with the same filters share the hub's prepared encodings, the recovering connection has the last client id), " +
 			"racing one publication with the chosen tag; preemption bound 1 (thorough: all 27 filter/tag combinations at bound 1, plus bound 2 for four discriminating combinations on the positioned variants). Oracle: every delivered entry / publication (subscribe reply incl. merged buffered publications, later pushes) is admitted by both filters.",
 		Variants: func(tier string) []vsched.Variant {
 			if tier == "thorough" {
@@ -768,12 +818,14 @@ func init() {
 					{Name: "stream-recover-all", Bound: 1, Shards: 9, BudgetS: 280},
 					{Name: "map-state-live-b2", Bound: 2, Shards: 16, BudgetS: 280},
 					{Name: "stream-recover-b2", Bound: 2, Shards: 16, BudgetS: 280},
+					{Name: "stream-crowd-all", Bound: 1, Shards: 9, BudgetS: 280},
 				}
 			}
 			return []vsched.Variant{
 				{Name: "map-state-live", Bound: 1, Shards: 4, BudgetS: 60},
 				{Name: "streamless", Bound: 1, Shards: 4, BudgetS: 60},
 				{Name: "stream-recover", Bound: 1, Shards: 4, BudgetS: 60},
+				{Name: "stream-crowd", Bound: 1, Shards: 4, BudgetS: 60},
 			}
 		},
 		Sched: func(v vsched.Variant) func() {
@@ -785,6 +837,8 @@ func init() {
 				set = "b2"
 			}
 			switch {
+			case strings.HasPrefix(v.Name, "stream-crowd"):
+				return fe1StreamCrowd(set)
 			case strings.HasPrefix(v.Name, "map-state-live"):
 				return fe1Map("mrec", set)
 			case strings.HasPrefix(v.Name, "streamless"):
